@@ -52,7 +52,7 @@ def main():
         demo_dst = os.path.join(wt, "_mutants", "demo.py")
         # demos must import the library from the tree they are run in: hard-coded author worktree paths become "."
         src = open(a.demo).read()
-        src = re.sub(r"/tmp/wt4?_C\d\d(?![\w/])", ".", src).replace('"./', '"').replace("'./", "'")
+        src = re.sub(r"/tmp/wt[45]?_C\d\d(?![\w/])", ".", src).replace('"./', '"').replace("'./", "'")
         a.demo = os.path.join(tempfile.gettempdir(), f"demo_{a.seed_id}.py")
         with open(a.demo, "w") as fh:
             fh.write(src)
